@@ -613,6 +613,16 @@ func runBatch(c *run.Ctx, from, n int) *stats {
 				}
 			}
 			c.Cover("path", path, 1)
+			if res.Class == "judged-ok" && idx%6 == 0 {
+				diff, planned := inCompany(cs.Text, &cs.Req)
+				c.Floor("statements planned while five other clients planned the same text", 0, planned)
+				if diff != "" {
+					sig := "in-company/statement-differs"
+					st.Violating++
+					c.Cover("violation", sig, 1)
+					c.Violation(sig, fmt.Sprintf("script %s: planned by six clients at once, %s", cs.Text, diff), map[string]any{"case": cs, "stage": "in-company"})
+				}
+			}
 			if res.Class == "judged-ok" {
 				c.Sample(map[string]any{"script": cs.Text, "window_s": []int64{cs.Req.StartS, cs.Req.EndS}, "limit": cs.Req.Limit, "path": path,
 					"traces_in_db": len(cs.DB.Traces), "selected": res.Verdict.Base.IDs(), "returned": res.Answer.traceIDs(), "readings": res.Verdict.Readings})
@@ -788,6 +798,7 @@ func report(c *run.Ctx, st *stats, n int) {
 	c.Floor("judged-with-aggregate", n/20, st.AggJudged)
 	c.Floor("judged-chains", n/40, st.ChainJudged)
 	c.Floor("shape-classes", 8, len(st.Shapes))
+	c.Floor("statements planned while five other clients planned the same text", n/10, 0)
 	if st.GeneratorBugs*50 > n {
 		c.Undecided(fmt.Sprintf("generator: %d of %d scripts rejected by the parser (> 2%%)", st.GeneratorBugs, n))
 	}
@@ -805,6 +816,7 @@ func Replay(c *run.Ctx, path string) {
 		Case struct {
 			Case     *caseRec `json:"case"`
 			Endpoint string   `json:"endpoint"`
+			Stage    string   `json:"stage"`
 		} `json:"case"`
 		Sig string `json:"sig"`
 	}
@@ -820,6 +832,22 @@ func Replay(c *run.Ctx, path string) {
 		e.tagsValues(cs, st)
 		c.Case("replay-a")
 		c.Case("replay-b")
+		return
+	}
+	if doc.Case.Stage == "in-company" {
+		if err := parseBack(cs.Script); err != nil {
+			c.Undecided("replay: " + err.Error())
+			return
+		}
+		cs.Text = cs.Script.String()
+		c.Case("replay-a")
+		c.Case("replay-b")
+		for i := 0; i < 20; i++ {
+			if diff, _ := inCompany(cs.Text, &cs.Req); diff != "" {
+				c.Violation("in-company/statement-differs", fmt.Sprintf("script %s: planned by six clients at once, %s", cs.Text, diff), map[string]any{"case": cs, "stage": "in-company"})
+				return
+			}
+		}
 		return
 	}
 	res := e.eval(cs)
